@@ -73,6 +73,33 @@ Proof.
            (lfr_erel_refl_nil lfr_e0 eq_refl) eq_refl eq_refl eq_refl eq_refl ltac:(discriminate)).
 Qed.
 
+(** warning_level: run 1 has the looser warning level (its warning bounds lie inside those of run 2, the
+    detect bounds coincide).  Over the WHOLE run, through every reset: drifts in exactly the same places,
+    every warning of the stricter setting is a warning of the looser one, counters identical. *)
+Definition trace_rel (t1 t2 : list obs) : Prop :=
+  Forall2 (fun o1 o2 => (o_ds o1 = DDrift <-> o_ds o2 = DDrift) /\ (o_ds o2 = DWarn -> o_ds o1 = DWarn)
+                         /\ o_total o1 = o_total o2 /\ o_since o1 = o_since o2) t1 t2.
+
+Theorem C17_lfr_warning_loosening :
+  forall (p : @lfr_params NumFloat) (xs1 xs2 : list (@lfr_input NumFloat)),
+  Forall2 lfr_wxrel xs1 xs2 ->
+  trace_rel (trace (init (LFR p) lfr_e0) xs1) (trace (init (LFR p) lfr_e0) xs2).
+Proof.
+  intros p xs1 xs2 H.
+  exact (lfr_warning_loosening TransLawsFloat p xs1 xs2 (init (LFR p) lfr_e0) (init (LFR p) lfr_e0) H
+           (lfr_werel_refl_nil lfr_e0 eq_refl) eq_refl eq_refl (conj (fun h => h) (fun h => h)) (fun h => h)).
+Qed.
+
+Theorem C17_lfr_checked_warning_pair :
+  forall eta burn sub tracked (xs1 xs2 : list (@lfr_input NumFloat)),
+  chk_lfr_wpair xs1 xs2 = true ->
+  let p := lfr_p eta burn sub tracked in
+  trace_rel (trace (init (LFR p) lfr_e0) xs1) (trace (init (LFR p) lfr_e0) xs2).
+Proof.
+  intros eta burn sub tracked xs1 xs2 H p.
+  exact (C17_lfr_warning_loosening p xs1 xs2 (chk_lfr_wpair_sound xs1 xs2 H)).
+Qed.
+
 (** the hypotheses are satisfiable and the conclusion is not vacuous: one tracked rate, one update; the
     statistic 0.75 lies above the looser upper detect bound 0.7 and inside the stricter bounds *)
 Example C17_lfr_example :
@@ -94,3 +121,5 @@ Print Assumptions C17_lfr_first_drift_monotone.
 Print Assumptions C17_lfr_same_until_first_drift.
 Print Assumptions C17_lfr_first_drift_monotone_any_state.
 Print Assumptions C17_lfr_checked_pair.
+Print Assumptions C17_lfr_warning_loosening.
+Print Assumptions C17_lfr_checked_warning_pair.
